@@ -193,6 +193,13 @@ Theorem C04_borrow_without_risk_accounts :
     (aflag ac3 ACCOUNT_IN_FLASHLOAN = true \/ existsb bl_active (ha_la ac3) = false).
 Proof. exact borrow_norem_only_flashloan_or_empty. Qed.
 
+(* stronger for the borrow: it always leaves the borrowed-from balance active, so without risk accounts it succeeds ONLY
+   inside a flash loan *)
+Theorem C04_borrow_without_risk_accounts_only_in_flashloan :
+  forall w a b n w', h_borrow_norem w a b n = Ok w' ->
+  exists ac, nth_acct w a = Ok ac /\ aflag ac ACCOUNT_IN_FLASHLOAN = true.
+Proof. exact borrow_norem_only_in_flashloan. Qed.
+
 Theorem C04_withdraw_without_risk_accounts :
   forall w a b n all w', h_withdraw_norem w a b n all = Ok w' ->
   exists ac3, nth_acct w' a = Ok ac3 /\
@@ -202,6 +209,7 @@ Proof. exact withdraw_norem_only_flashloan_or_empty. Qed.
 Print Assumptions C04_borrow_sound.
 Print Assumptions C04_borrow_without_risk_accounts.
 Print Assumptions C04_withdraw_without_risk_accounts.
+Print Assumptions C04_borrow_without_risk_accounts_only_in_flashloan.
 Print Assumptions C04_withdraw_sound.
 Print Assumptions C04_isolated_debt_is_only_debt.
 Print Assumptions C04_nonempty_means_one_unit.
